@@ -95,6 +95,9 @@ sv_keys = z3.Function('sv_keys', SV.sort(), SetOf(ATOM).sort())
 def _key_slice(ex, base, lo, hi, line):
     if base.ty == PKEY and lo == 1 and hi is None:
         return V(ident_of(base.t), IDENT)
+    if base.ty == PKEY and hi is None and isinstance(lo, int) and 2 <= lo <= 5:
+        # a shorter tail of the key: a coarser view (equal identities have equal shorter tails, not conversely)
+        return V(z3.Function('key_tail_from_%d' % lo, PKEY.sort(), Ref('Tail%d' % lo).sort())(base.t), Ref('Tail%d' % lo))
     return None
 
 
